@@ -283,19 +283,42 @@ class Report:
         return rc
 
 
+class CaseTimeout(BaseException):
+    pass
+
+
+def _alarm(signum, frame):
+    raise CaseTimeout()
+
+
+CASE_SECONDS = int(os.environ.get("VERIF_CASE_SECONDS", "45"))
+
+
 def guarded(rep: Report, text, fn, *args, **kw):
     """run one case; an exception escaping the case logic means the implementation behaved in a
     way the check does not expect (e.g. a generated function is missing): reported with the case
     as replay rather than crashing the whole check"""
+    import signal
+
+    old = signal.signal(signal.SIGALRM, _alarm)
+    signal.alarm(CASE_SECONDS)
     try:
         return fn(*args, **kw)
     except (KeyboardInterrupt, SystemExit):
         raise
+    except CaseTimeout:
+        # sympy (simplify inside the printers) can take minutes on deeply nested conditionals; the
+        # case is abandoned and counted - slowness is not what these properties are about
+        rep.count("cases_abandoned_after_%ds" % CASE_SECONDS)
+        return None
     except Exception as ex:  # noqa: BLE001
         tb = traceback.format_exc()[-1500:]
         rep.violation(f"the case could not be completed: {type(ex).__name__}: {str(ex)[:200]}",
                       {"kind": "direct", "text": text, "exception": repr(ex)[:300], "traceback": tb})
         return None
+    finally:
+        signal.alarm(0)
+        signal.signal(signal.SIGALRM, old)
 
 
 def props_or_violation(rep: Report):
